@@ -110,11 +110,23 @@ def wrapper_api(ctx, rng):
         for _ in range(12):
             if rng.random() < 0.5:
                 n = rng.randrange(0, 9)
-                d = w.read(n)
+                try:
+                    with impl.watchdog(20.0):
+                        d = w.read(n)
+                except impl.Hang:
+                    ctx.fail("wrapper-read-hangs", {"op": "WRAP", "data": data.hex(), "chunks": rl.events_str(chunks), "pos": pos, "call": "read(%d)" % n},
+                             "returns", "no return within 20 s")
+                    break
                 exp = data[pos:pos + n] if pos + n <= len(data) else b""
                 op = "read(%d)" % n
             else:
-                d = w.readline()
+                try:
+                    with impl.watchdog(20.0):
+                        d = w.readline()
+                except impl.Hang:
+                    ctx.fail("wrapper-readline-hangs", {"op": "WRAP", "data": data.hex(), "chunks": rl.events_str(chunks), "pos": pos, "call": "readline()"},
+                             "returns", "no return within 20 s")
+                    break
                 i = data.find(b"\n", pos)
                 exp = data[pos:] if i < 0 else data[pos:i + 1]
                 op = "readline()"
@@ -151,10 +163,14 @@ def real_socket(ctx, rng, n):
         t = threading.Thread(target=sender)
         t.start()
         got = []
+        bs = rng.choice([1, 7, 64, 4096])
         try:
-            with impl.quiet():
-                for raw, parsed in UBXReader(b, quitonerror=0, bufsize=rng.choice([1, 7, 4096])):
+            with impl.quiet(), impl.watchdog(30.0):
+                for raw, parsed in UBXReader(b, quitonerror=0, bufsize=bs):
                     got.append((raw, parsed))
+        except impl.Hang:
+            ctx.fail("real-socket-hangs", {"op": "REALSOCK", "stream": s.hex(), "chunks": [c.hex() for c in chunks], "bufsize": bs},
+                     "iteration ends", "no end within 30 s")
         finally:
             t.join()
             b.close()
